@@ -241,6 +241,41 @@ pub fn net_oracles_predict(ctx: &mut Ctx, spec: &NetSpec, net: &Network, x: &Ten
     if is(ctx, &["C16", "C17", "C11"]) {
         scale_oracles(ctx, spec, net, x, y, &desc);
     }
+    // an element-wise activation alone (one dense layer, weight matrix diagonal, no bias): the output equals the activation
+    // of the pre-activation to single-precision RELATIVE accuracy at every scale (a tiny pre-activation is not lost)
+    if is(ctx, &["C02", "C07"]) {
+        if let [Build::Layer(InnerSpec::Dense { act, bias: false, dropout: None, w, .. })] = spec.builds.as_slice() {
+            if let Data::Double(m) = &w.data {
+                let xf = flat_any(x);
+                let yf = flat_any(y);
+                let n = xf.len();
+                let diag = m.len() == n && m.iter().enumerate().all(|(i, r)| r.len() == n && r.iter().enumerate().all(|(j, v)| i == j || *v == 0.0));
+                let f: Option<fn(f64) -> f64> = match act.as_str() {
+                    "tanh" => Some(|z: f64| z.tanh()),
+                    "sigmoid" => Some(|z: f64| 1.0 / (1.0 + (-z).exp())),
+                    "relu" => Some(|z: f64| if z > 0.0 { z } else { 0.0 }),
+                    "leaky" => Some(|z: f64| if z > 0.0 { z } else { 0.01f32 as f64 * z }),
+                    "linear" => Some(|z: f64| z),
+                    _ => None,
+                };
+                if let (true, Some(f)) = (diag && yf.len() == n && xf.iter().all(|v| v.is_finite()), f) {
+                    let mut worst: Option<String> = None;
+                    for i in 0..n {
+                        let z = (m[i][i] as f64) * (xf[i] as f64);
+                        if !z.is_finite() || z.abs() > 1e30 { continue; }
+                        let e = f(z);
+                        let tol = 4e-6 * e.abs() + 1e-44;
+                        if !((yf[i] as f64 - e).abs() <= tol) {
+                            worst = Some(format!("component {}: got {:e}, {}({:e}) = {:e}", i, yf[i], act, z, e));
+                            break;
+                        }
+                    }
+                    ctx.oracle(worst.is_none(), "forward-operator", "a dense layer outputs activation(W x + b): the activation of every pre-activation, tiny ones included, to single-precision relative accuracy",
+                        desc.clone(), worst.clone().unwrap_or_default(), "activation evaluated in double precision".into());
+                }
+            }
+        }
+    }
     let mut m = Margin(f64::INFINITY);
     let (_, out) = r.forward(&f64s(x), &mut m);
     // ties / kinks change which branch is taken; only compare away from them
@@ -703,6 +738,14 @@ pub fn net_oracles_learn(ctx: &mut Ctx, spec: &NetSpec, net: &Network, job: &Lea
             }
         }
     }
+    // with validation data (and no scripted losses) the walk is the same for the epochs that were run: the validation pass
+    // between the epochs must not influence the training walk
+    let walked: Option<LearnJob> = match (res, &job.val) {
+        (Ok((tl, _, _)), Some(_)) if job.script.is_empty() && job.phases <= 1 && !tl.is_empty() => Some(LearnJob { xs: job.xs.clone(), ts: job.ts.clone(), val: None,
+            batch: job.batch, epochs: tl.len() as i32, script: vec![], print: None, phases: 1 }),
+        _ => None,
+    };
+    let job = match &walked { Some(j) => j, None => job };
     if is(ctx, &["C04"]) && job.val.is_none() && job.script.is_empty() {
         if let Some((spec_loss, spec_params)) = learn_spec(spec, job) {
             let got = net_params(net);
